@@ -1027,3 +1027,7 @@ def derived_fee_guarded(ctx):
                 ctx.require(guarded, q, '`%s` is computed without testing that the input total is known' % norm(a)[:70], a,
                             'a coinbase transaction fetched through this client has fee = -(sum of its outputs): a negative number of smallest units in Transaction.fee, the cache and the wallet')
     ctx.floor(n, 4, 'derived fees')
+
+
+from . import c20 as _c20
+PROP.obligation('C17.clamp-before-cache')(_c20.clamp_before_cache)
